@@ -176,6 +176,8 @@ class Machine:
                     if not (-(1 << 31) <= v < (1 << 31)):
                         raise Fail("make_int", "literal out of range")
                     ops.append(v)
+            elif op == "make_bigint":
+                ops.append(("big", int(a[0].lstrip("B"))))        # concrete bigint literals only (C02's catalogue)
             elif op == "make_bool":
                 ops.append(a[0] == "true")
             elif op == "make_str":
@@ -224,6 +226,8 @@ class Machine:
                         if c is None:
                             raise Fail("vec_op", "index variable not mapped")
                         idx = c.v
+                    if isinstance(lst, (MapRef, Obj, Fn, bool, int)) or lst is NIL:
+                        raise Fail("vec_op", "cannot perform a vector operation on a non-vector")
                     if not isinstance(lst, ListRef):
                         raise Unsupported("index into a non-list")
                     ln = len(lst.items)
